@@ -47,3 +47,83 @@ pub(crate) fn mul8_ref(a: u8, b: u8) -> u8 {
     // round-half-up of p/255
     ((2 * p + 255) / 510) as u8
 }
+
+// ---------------------------------------------------------------------------------------------------------
+// Blend dispatch as an uninterpreted function. Kani 0.68 cannot compile `file::blend_mode_to_blend_fn`
+// (internal compiler error on `Box::new(<fn item>)`), so every harness that reaches rendering replaces it by
+// `uf_blend_fn`; structural results then hold for whatever the 19 functions compute (their arithmetic is C03).
+use crate::blend::Color8;
+use image::Rgba;
+
+pub(crate) const UFB_CAP: usize = 12;
+static mut UFB_ARGS: [(u8, [u8; 4], [u8; 4], u8); UFB_CAP] = [(0, [0; 4], [0; 4], 0); UFB_CAP];
+static mut UFB_RES: [[u8; 4]; UFB_CAP] = [[0; 4]; UFB_CAP];
+static mut UFB_N: usize = 0;
+
+pub(crate) fn px_eq(a: &Rgba<u8>, b: &Rgba<u8>) -> bool {
+    a.0[0] == b.0[0] && a.0[1] == b.0[1] && a.0[2] == b.0[2] && a.0[3] == b.0[3]
+}
+/// the repository's own image comparison: fully transparent pixels compare equal regardless of RGB
+pub(crate) fn px_equiv(a: &Rgba<u8>, b: &Rgba<u8>) -> bool {
+    (a.0[3] == 0 && b.0[3] == 0) || px_eq(a, b)
+}
+
+pub(crate) fn uf_blend(mode: BlendMode, b: Color8, s: Color8, o: u8) -> Color8 {
+    let m = mode as u8;
+    unsafe {
+        let mut i = 0;
+        while i < UFB_N {
+            let k = &UFB_ARGS[i];
+            if k.0 == m && k.1[0] == b.0[0] && k.1[1] == b.0[1] && k.1[2] == b.0[2] && k.1[3] == b.0[3]
+                && k.2[0] == s.0[0] && k.2[1] == s.0[1] && k.2[2] == s.0[2] && k.2[3] == s.0[3] && k.3 == o
+            {
+                return Rgba(UFB_RES[i]);
+            }
+            i += 1;
+        }
+        assert!(UFB_N < UFB_CAP, "UF blend table capacity");
+        let r: [u8; 4] = [kani::any(), kani::any(), kani::any(), kani::any()];
+        UFB_ARGS[UFB_N] = (m, b.0, s.0, o);
+        UFB_RES[UFB_N] = r;
+        UFB_N += 1;
+        Rgba(r)
+    }
+}
+
+pub(crate) fn uf_blend_fn(mode: BlendMode) -> Box<dyn Fn(Color8, Color8, u8) -> Color8> {
+    Box::new(move |b, s, o| uf_blend(mode, b, s, o))
+}
+
+pub(crate) fn any_px() -> Rgba<u8> {
+    Rgba([kani::any(), kani::any(), kani::any(), kani::any()])
+}
+
+/// Stub for `TilesetsById::get` in harnesses whose sprite has no tileset: keeps symbolic execution out of
+/// hashbrown's probing loops on paths (tilemap cels) that the harness state cannot take.
+pub(crate) fn stub_tilesets_get_none<P>(_s: &TilesetsById<P>, _id: u32) -> Option<&Tileset<P>> {
+    None
+}
+/// Stub for `ColorPalette::color` in harnesses without indexed pixels.
+pub(crate) fn stub_color_none(_s: &ColorPalette, _i: u32) -> Option<&ColorPaletteEntry> {
+    None
+}
+
+/// Stub for `AseReader::unzip` (real inflate is not encodable: miniz_oxide's bit reader does not terminate
+/// under symbolic execution). Model: the "decompressed" stream is the remaining input bytes unchanged (identity
+/// codec) -- arbitrary content, length = what the chunk actually carries, independent of the declared size,
+/// exactly the freedom a real deflate stream has.
+pub(crate) fn stub_unzip_identity<T: std::io::Read>(this: crate::reader::AseReader<T>, _expected: usize) -> Result<Vec<u8>> {
+    this.rest()
+}
+
+/// Stub for `Pixels::clone_as_image_rgba` in harnesses that only ever build RGBA pixel containers: the
+/// grayscale / indexed conversion paths (decided by C06) are cut off instead of being explored as garbage.
+pub(crate) fn stub_clone_rgba_only(p: &crate::pixel::Pixels) -> std::borrow::Cow<Vec<image::Rgba<u8>>> {
+    match p {
+        crate::pixel::Pixels::Rgba(v) => std::borrow::Cow::Borrowed(v),
+        _ => {
+            kani::assume(false);
+            unreachable!()
+        }
+    }
+}
